@@ -15,7 +15,7 @@ func init() {
 		Explain: "Redirect routes, decided structurally; sites are found by ROLE in the region of the exported entry points (ServeHTTP, Table.Lookup) and of the location builder, which is itself found by role (the functions of package route from whose *url.URL - or, failing that, *http.Request - parameter the \"$path\" substitution derives: BuildRedirectURL today, equally a pure function that returns the location and lets Table.Lookup store it). (S1) no store to a route.Target (incl. its RedirectURL and the url.URL behind it) reachable from a per-request entry unless the target object is a per-request copy — the 'under any number of simultaneous requests' clause, decided for all schedules by the shared-state engine; (G1) path-sensitive abstract interpretation of ServeHTTP and the repository helpers it calls (state: RedirectCode zero/non-zero, RedirectURL nil/non-nil, access gate passed, auth gate passed, redirect answered; helpers are entered with the caller's state and every result they hand back is correlated with the states at their returns: a boolean verdict, nil / non-nil of a pointer-like result such as the admitted target or an error, the value of an integer constant of an enum verdict, one component of a result tuple - so that `t := p.admit(w, r); if t == nil { return }` selects the states in which the helper returned a target): the redirect answer (http.Redirect / http.RedirectHandler(..).ServeHTTP) is written only where RedirectCode != 0 is established and both gates are passed, carries Target.RedirectURL/RedirectCode, and every upstream-contact site is reached only in states 'not a redirect target' and never after the answer; (C1) interval analysis of Target.RedirectCode in every function that stores it (targets the function did not create are assumed in range, by induction): at every exit and where the target joins Route.Targets the code is in {0} ∪ [300,399] on all paths, including the strconv.Atoi error edge (Atoi returns the clamped value on range errors); stored values are evaluated through parse helpers (union over their returns under the branch conditions there; for a helper with several results only over the returns compatible with what is known about the other results, e.g. err == nil), local variables and integer conversions; (P1) in the region of the builder family the $path/$host replacements derive from the request parameter (never from the configuration fields of a target), the strip operation (slice from len(StripPath) / strings.TrimPrefix / CutPrefix) is never applied to a value that already carries PrependPath, and a request-derived query is stored into the location under construction (the url.URL that receives the substitution results) only where the template's / location's own query is known to be empty; (L1) wherever the region of Table.Lookup knows 'the location equals the request' (block or branch edge; the location is Target.RedirectURL or a value stored there; the comparisons may sit in a boolean predicate helper) the value handed on (returned, or carried round the host loop) is nil, and every loop edge taken with a redirect target in hand carries nil; (L2) at those places scheme, full host:port and path are all known equal; (E2) every caller of a function of the builder family hands it the request URL itself or a copy carrying RawPath (also through a cloning helper or a helper parameter; a member that passes its own parameter on is checked at its callers), and every url.URL assembled in package route from request fields from which the $path replacement derives carries RawPath. Not decided: the text of the Location for each template form (string contents, e.g. %2F with https://$host$path).",
 		Run:     runC13,
 		Trusted: []string{"strconv.Atoi contract (value clamped on range error)", "net/http.Redirect writes the given status and Location"},
-		Mutants: append([]mutant{
+		Mutants: c13devFilter(append([]mutant{
 			{Name: "redirect built from a URL without RawPath", File: "route/table.go", Old: "\t\t\t\tredirect.BuildRedirectURL(req.URL)\n", New: "\t\t\t\tredirect.BuildRedirectURL(&url.URL{Host: req.Host, Path: req.URL.Path, RawQuery: req.URL.RawQuery})\n", Expect: "C13.E2"},
 
 			{Name: "cache redirect URL on shared target", File: "route/table.go", Old: "redirect := *target\n\t\t\t\tredirect.BuildRedirectURL(req.URL)\n\t\t\t\ttarget = &redirect", New: "target.BuildRedirectURL(req.URL)", Expect: "C13.S1"},
@@ -28,8 +28,16 @@ func init() {
 			{Name: "skipped redirect kept", File: "route/table.go", Old: "\t\t\t\t\ttarget = nil\n\t\t\t\t\tcontinue", New: "\t\t\t\t\tcontinue", Expect: "C13.L1"},
 			{Name: "self-redirect test ignores the port", File: "route/table.go", Old: "target.RedirectURL.Host == req.Host &&", New: "target.RedirectURL.Hostname() == req.URL.Hostname() &&", Expect: "C13.L2"},
 			{Name: "benign: return built URL through a local", File: "route/table.go", Old: "redirect.BuildRedirectURL(req.URL)", New: "ru := req.URL\n\t\t\t\tredirect.BuildRedirectURL(ru)", Expect: ""},
-		}, append(c13moreMutants, c13round2Mutants...)...),
+		}, append(c13moreMutants, append(c13round2Mutants, c13round5Mutants...)...)...)),
 	})
+}
+
+// c13devFilter: development aid - C13_MUTANTS=new runs only the youngest overlay mutants (plus those of round 4).
+func c13devFilter(all []mutant) []mutant {
+	if os.Getenv("C13_MUTANTS") == "new" {
+		return c13round5Mutants
+	}
+	return all
 }
 
 func runC13(c *Ctx) {
@@ -273,7 +281,7 @@ func c13requestField(v ssa.Value) bool {
 }
 
 func runC13P1(c *Ctx) {
-	bi := c13findBuilders(c)
+	bi := c13findBuildersFor(c, true)
 	if len(bi.fns) == 0 {
 		c.undecided("C13.P1", "anchor|location builder", "no function of package route has a *url.URL (or *http.Request) parameter from which a \"$path\" substitution derives: the builder of the redirect location does not resolve")
 		return
@@ -380,11 +388,10 @@ func runC13P1(c *Ctx) {
 		if !ok || !namedIs(fa.X.Type(), "url.URL") {
 			return
 		}
-		if call, isCall := st.Val.(*ssa.Call); isCall {
-			if _, _, isSubst := c13subst(&call.Call); isSubst {
-				locVals = append(locVals, fa.X)
-				locPaths[accessPath(fa.X)] = true
-			}
+		// ... directly, as one component of the helper's results, or through a local that carries it there
+		if derives(st.Val, c13isSubstCall) {
+			locVals = append(locVals, fa.X)
+			locPaths[accessPath(fa.X)] = true
 		}
 	})
 	isLocObj := func(x ssa.Value) bool {
@@ -467,6 +474,16 @@ func c13args(v ssa.Value, depth int) []ssa.Value {
 		return []ssa.Value{v}
 	}
 	return out
+}
+
+// c13isSubstCall: v is the result of a $path / $host substitution.
+func c13isSubstCall(v ssa.Value) bool {
+	call, ok := v.(*ssa.Call)
+	if !ok {
+		return false
+	}
+	_, _, isSubst := c13subst(&call.Call)
+	return isSubst
 }
 
 func c13allArgs(v ssa.Value, pred func(ssa.Value) bool) bool {
@@ -587,7 +604,7 @@ func c13skipOutcome(b, first *ssa.BasicBlock) (c13outcome, bool) {
 	cur := b
 	if first != nil {
 		if oc, end := pass(b, first, b.Instrs[len(b.Instrs)-1]); end {
-			return oc, len(oc.vals) > 0
+			return oc, true // a loop that carries no *Target along hands nothing on: the skip is complete
 		}
 		cur = first
 	}
@@ -607,7 +624,7 @@ func c13skipOutcome(b, first *ssa.BasicBlock) (c13outcome, bool) {
 		case *ssa.Jump:
 			next := cur.Succs[0]
 			if oc, end := pass(cur, next, term); end {
-				return oc, len(oc.vals) > 0
+				return oc, true
 			}
 			cur = next
 		default:
